@@ -101,15 +101,18 @@ def Gate.dagger : Gate → Gate
 /-- `circuit.invert()`: daggers in reverse order. -/
 def invertCircuit (gs : List Gate) : List Gate := gs.reverse.map Gate.dagger
 
-/-- `_single_qubit_clifford_decomposition` on the bits of the 1-qubit tableau
-(destabiliser `dx dz dr`, stabiliser `sx sz sr`). -/
-def singleQubitB (dx dz dr sx sz sr : Bool) : List Gate :=
-  (if dr && !sr then [Gate.Z 0] else if !dr && sr then [Gate.X 0]
-    else if dr && sr then [Gate.Y 0] else [])
+/-- `_single_qubit_clifford_decomposition` on the bits of a 1-qubit tableau (destabiliser
+`dx dz dr`, stabiliser `sx sz sr`), the gates placed on qubit `q` (BM20 re-targets them). -/
+def singleQubitQ (q : Nat) (dx dz dr sx sz sr : Bool) : List Gate :=
+  (if dr && !sr then [Gate.Z q] else if !dr && sr then [Gate.X q]
+    else if dr && sr then [Gate.Y q] else [])
   ++
-  (if sz && !sx then (if dz then [Gate.S 0] else [])
-    else if !sz && sx then (if dx then [Gate.SDG 0] else []) ++ [Gate.H 0]
-    else (if !dz then [Gate.S 0] else []) ++ [Gate.H 0, Gate.S 0])
+  (if sz && !sx then (if dz then [Gate.S q] else [])
+    else if !sz && sx then (if dx then [Gate.SDG q] else []) ++ [Gate.H q]
+    else (if !dz then [Gate.S q] else []) ++ [Gate.H q, Gate.S q])
+
+/-- `_single_qubit_clifford_decomposition(symplectic_matrix)` of a 1-qubit tableau. -/
+def singleQubitB (dx dz dr sx sz sr : Bool) : List Gate := singleQubitQ 0 dx dz dr sx sz sr
 
 def singleQubit (T : Tableau) : List Gate :=
   singleQubitB ((getRow T 0).x 0) ((getRow T 0).z 0) (getRow T 0).r
@@ -119,5 +122,126 @@ def singleQubit (T : Tableau) : List Gate :=
 inverted; otherwise the recorded circuit is inverted). -/
 def toCircuitAG04 (n : Nat) (T : Tableau) : List Gate :=
   if n = 1 then singleQubit T else invertCircuit (ag04Forward n T).2
+
+/-! ### `to_circuit("BM20")`: `_decomposition_BM20`, `_cnot_cost`, `_reduce_cost` -/
+
+/-- `_rank_2(a, b, c, d)`. -/
+def rank2 (a b c d : Bool) : Nat :=
+  if (a && d) ^^ (b && c) then 2 else if a || b || c || d then 1 else 0
+
+/-- `_cnot_cost2`: entries `[i, j]` of `symplectic_matrix[:-1, :-1]` are `x_j` (`j < n`) resp.
+`z_{j-n}` of row `i`. -/
+def cnotCost2 (T : Tableau) : Nat :=
+  let a := getRow T 0
+  let c := getRow T 2
+  let r00 := rank2 (a.x 0) (a.z 0) (c.x 0) (c.z 0)
+  let r01 := rank2 (a.x 1) (a.z 1) (c.x 1) (c.z 1)
+  if r00 = 2 then r01 else r01 + 1 - r00
+
+/-- `np.array_equal(row & mask, row)` with the mask of qubit `q` on a 3-qubit row given by bits. -/
+def onlyOn3 (x z : Nat → Bool) (q : Nat) : Bool :=
+  (List.range 3).all fun k => k == q || (!x k && !z k)
+
+def sort3 (a b c : Nat) : List Nat :=
+  let ins := fun (v : Nat) (l : List Nat) =>
+    match l with
+    | [] => [v]
+    | [p] => if v ≤ p then [v, p] else [p, v]
+    | p :: r :: _ => if v ≤ p then [v, p, r] else if v ≤ r then [p, v, r] else [p, r, v]
+  ins a (ins b (ins c []))
+
+def b2n (b : Bool) : Nat := if b then 1 else 0
+
+/-- `R2[q1, q2]` of `_cnot_cost3`. -/
+def r2Entry (T : Tableau) (q1 q2 : Nat) : Nat :=
+  rank2 ((getRow T q1).x q2) ((getRow T q1).z q2) ((getRow T (q1 + 3)).x q2) ((getRow T (q1 + 3)).z q2)
+
+/-- `R1[q1, q2]` of `_cnot_cost3`: how many of destabiliser, stabiliser and their product … -/
+def r1Entry (T : Tableau) (q1 q2 : Nat) : Nat :=
+  let a := getRow T q1
+  let c := getRow T (q1 + 3)
+  let lx := onlyOn3 a.x a.z q2
+  let lz := onlyOn3 c.x c.z q2
+  let ly := onlyOn3 (fun k => a.x k ^^ c.x k) (fun k => a.z k ^^ c.z k) q2
+  b2n (lx || lz || ly) + b2n (lx && lz && ly)
+
+/-- the decision list at the end of `_cnot_cost3`. -/
+def cost3Table (diag1 diag2 : List Nat) (nz1 nz2 : Nat) : Nat :=
+  if diag1 == [2, 2, 2] then 0
+  else if diag1 == [1, 1, 2] then 1
+  else if diag1 == [0, 1, 1] || (diag1 == [1, 1, 1] && nz2 < 9) || (diag1 == [0, 0, 2] && diag2 == [1, 1, 2]) then 2
+  else if (diag1 == [1, 1, 1] && nz2 == 9)
+      || (diag1 == [0, 0, 1] && (nz1 == 1 || diag2 == [2, 2, 2] || (diag2 == [1, 1, 2] && nz2 < 9)))
+      || (diag1 == [0, 0, 2] && diag2 == [0, 0, 2])
+      || (diag2 == [1, 2, 2] && nz1 == 0) then 3
+  else if diag2 == [0, 0, 1]
+      || (diag1 == [0, 0, 0] && ((diag2 == [1, 1, 1] && nz2 == 9 && nz1 == 3)
+        || (diag2 == [0, 1, 1] && nz2 == 8 && nz1 == 2))) then 5
+  else if nz1 == 3 && nz2 == 3 then 6
+  else 4
+
+/-- `_cnot_cost3`. -/
+def cnotCost3 (T : Tableau) : Nat :=
+  let pairs := (List.range 3).flatMap fun q1 => (List.range 3).map fun q2 => (q1, q2)
+  cost3Table (sort3 (r1Entry T 0 0) (r1Entry T 1 1) (r1Entry T 2 2))
+    (sort3 (r2Entry T 0 0) (r2Entry T 1 1) (r2Entry T 2 2))
+    (pairs.filter fun p => r1Entry T p.1 p.2 != 0).length
+    (pairs.filter fun p => r2Entry T p.1 p.2 != 0).length
+
+/-- `_cnot_cost` (`nqubits == 3` → `_cnot_cost3`, otherwise `_cnot_cost2`). -/
+def cnotCost (n : Nat) (T : Tableau) : Nat := if n = 3 then cnotCost3 T else cnotCost2 T
+
+/-- what `_reduce_cost` applies to the copy for the local choice `k ∈ {0, 1, 2}` on `q`. -/
+def bmApply (k q : Nat) (T : Tableau) : Tableau :=
+  match k with
+  | 1 => applyGate (.H q) (applyGate (.SDG q) T)
+  | 2 => applyGate (.H q) (applyGate (.SDG q) (applyGate (.H q) (applyGate (.SDG q) T)))
+  | _ => T
+
+/-- what `_reduce_cost` appends to `inverse_circuit` for that choice. -/
+def bmRecord (k q : Nat) : List Gate :=
+  match k with
+  | 1 => [.SDG q, .H q]
+  | 2 => [.H q, .S q]
+  | _ => []
+
+/-- the candidates of `_reduce_cost` in loop order: `(control, target, n0, n1)`. -/
+def bmCandidates (n : Nat) : List (Nat × Nat × Nat × Nat) :=
+  (List.range n).flatMap fun c => ((List.range n).filter fun t => c < t).flatMap fun t =>
+    (List.range 3).flatMap fun n0 => (List.range 3).map fun n1 => (c, t, n0, n1)
+
+/-- `_reduce_cost(clifford, inverse_circuit, cost)`: the first candidate whose cost is `cost - 1`
+(`none`: `RuntimeError("Failed to reduce CNOT cost.")`); returns the reduced tableau and the gates
+appended to `inverse_circuit`. -/
+def reduceCost (cost : Tableau → Nat) (n : Nat) (T : Tableau) (c : Nat) : Option (Tableau × List Gate) :=
+  (bmCandidates n).findSome? fun (ctrl, tgt, n0, n1) =>
+    let R := applyGate (.CNOT ctrl tgt) (bmApply n1 tgt (bmApply n0 ctrl T))
+    if cost R + 1 = c then some (R, bmRecord n0 ctrl ++ bmRecord n1 tgt ++ [.CNOT ctrl tgt]) else none
+
+/-- `while cnot_cost > 0: … = _reduce_cost(…)`; the cost drops by exactly one per pass. -/
+def bmLoop (cost : Tableau → Nat) (n : Nat) : Nat → Tableau → List Gate → Option (Tableau × List Gate)
+  | 0, T, inv => some (T, inv)
+  | c + 1, T, inv =>
+    match reduceCost cost n T (c + 1) with
+    | some (R, gs) => bmLoop cost n c R (inv ++ gs)
+    | none => none
+
+/-- the single-qubit circuits read off the reduced tableau, qubit by qubit. -/
+def bmLocalPart (n : Nat) (F : Tableau) : List Gate :=
+  (List.range n).flatMap fun q =>
+    singleQubitQ q ((getRow F q).x q) ((getRow F q).z q) (getRow F q).r
+      ((getRow F (n + q)).x q) ((getRow F (n + q)).z q) (getRow F (n + q)).r
+
+/-- `_decomposition_BM20` with an arbitrary cost function (`none`: an exception is raised). -/
+def bm20With (cost : Tableau → Nat) (n : Nat) (T : Tableau) : Option (List Gate) :=
+  if n > 3 then none
+  else if n = 1 then some (singleQubit T)
+  else
+    match bmLoop cost n (cost T) T [] with
+    | some (F, inv) => some (bmLocalPart n F ++ invertCircuit inv)
+    | none => none
+
+/-- `Clifford.to_circuit("BM20")`. -/
+def toCircuitBM20 (n : Nat) (T : Tableau) : Option (List Gate) := bm20With (cnotCost n) n T
 
 end QV.Cliff
